@@ -1,2 +1,2 @@
 SPECIFICATION MonSpec
-INVARIANTS PathsFromLastRefresh LocalIACurrent NotTooRare CountBound RAlias RExact
+INVARIANTS PathsFromLastRefresh LocalIACurrent NotTooRare CountBound RAlias RExact ObsReport
